@@ -386,6 +386,7 @@ fn aut_pairs() -> BoxedStrategy<Pairs> {
     prop_oneof![
         3 => (proptest::collection::vec((proptest::collection::vec(byte, 0..=5), gen::value_strategy()), 0..40)).prop_map(gen::sort_dedup),
         1 => gen::small_pairs(30, 40),
+        1 => gen::with_long_keys(),
     ]
     .boxed()
 }
